@@ -5,13 +5,17 @@
 //   mode 5 smodels -> AspifOutput (opts&1: potassco, opts&2: filter)        6 smodels -> AspifTextOutput
 //   mode 7 the real lpconvert binary ($VERIF_LPCONVERT) with -p (1) -f (2) -t (4), input on stdin
 // Observation: status (0 accepted, 1 error reported, 2 std::exception escaped, 3 other exception), handler invocations, error line,
-//              leak flag, then the recorded calls (modes 0-2) or the output length (modes 3-6) or the exit status (mode 7).
+//              leak flag, then the recorded calls (modes 0-2) or the length and the bytes of the output stream (modes 3-7).
+//              Mode 7: status = exit status of the binary (0, 1; 2000 = sanitizer report about an allocation size announced by the input),
+//              handler invocations = number of "*** ERROR: In line <n>" reports on stderr, error line = <n>, output = its stdout.
 #include "common.h"
 #include "rec.h"
 #include <potassco/aspif.h>
 #include <potassco/aspif_text.h>
 #include <potassco/smodels.h>
 #include <potassco/convert.h>
+#include <fstream>
+#include <cstring>
 #include <unistd.h>
 #include <sys/wait.h>
 // cheap per-case leak detection: live allocation count must return to its value before the case;
@@ -33,7 +37,12 @@ static Potassco::SmodelsInput::Options smOpts(ll o) {
 	if (o & 8) opts.dropConverted();
 	return opts;
 }
-static int runLpconvert(const std::string& in, ll opts) {
+static std::string slurp(const std::string& path) {
+	std::ifstream f(path.c_str(), std::ios::binary);
+	std::ostringstream ss; ss << f.rdbuf();
+	return ss.str();
+}
+static int runLpconvert(const std::string& in, ll opts, std::string& out, int& nerr, int& line) {
 	const char* exe = std::getenv("VERIF_LPCONVERT");
 	if (!exe) return -1;
 	char tmpl[] = "/tmp/verif-c04-XXXXXX";
@@ -41,14 +50,19 @@ static int runLpconvert(const std::string& in, ll opts) {
 	if (fd < 0) return -1;
 	if (write(fd, in.data(), in.size()) != (ssize_t)in.size()) { close(fd); unlink(tmpl); return -1; }
 	close(fd);
-	std::string cmd = std::string(exe) + ((opts & 1) ? " -p" : "") + ((opts & 2) ? " -f" : "") + ((opts & 4) ? " -t" : "") + " < " + tmpl + " > /dev/null 2> " + tmpl + ".err";
+	std::string cmd = std::string(exe) + ((opts & 1) ? " -p" : "") + ((opts & 2) ? " -f" : "") + ((opts & 4) ? " -t" : "") + " < " + tmpl + " > " + tmpl + ".out 2> " + tmpl + ".err";
 	int st = std::system(cmd.c_str());
 	int code = WIFEXITED(st) ? WEXITSTATUS(st) : 1000 + (WIFSIGNALED(st) ? WTERMSIG(st) : 0);
+	std::string err = slurp(std::string(tmpl) + ".err");
 	if (code == 77) { // sanitizer report: an allocation size announced by the input itself is outside the claim (reported as 2000)
-		std::string grep = std::string("grep -q -e allocation-size-too-big -e out-of-memory ") + tmpl + ".err";
-		if (std::system(grep.c_str()) == 0) code = 2000;
+		if (err.find("allocation-size-too-big") != std::string::npos || err.find("out-of-memory") != std::string::npos) code = 2000;
 	}
-	unlink(tmpl); unlink((std::string(tmpl) + ".err").c_str());
+	out = slurp(std::string(tmpl) + ".out");
+	static const char* const tag = "*** ERROR: In line ";
+	for (std::size_t p = 0; (p = err.find(tag, p)) != std::string::npos; p += std::strlen(tag)) {
+		if (nerr++ == 0) { line = std::atoi(err.c_str() + p + std::strlen(tag)); }
+	}
+	unlink(tmpl); unlink((std::string(tmpl) + ".err").c_str()); unlink((std::string(tmpl) + ".out").c_str());
 	return code;
 }
 int main() {
@@ -58,8 +72,8 @@ int main() {
 		ll mode = c.next(), opts = c.next(); size_t len = (size_t)c.next();
 		std::string in = c.bytes(len);
 		g_errs = 0; g_line = 0;
-		int status = 0; Obs rec; int extra = -1; long outLen = 0;
-		rec.s.reserve(1 << 16);
+		int status = 0; Obs rec; std::string outBytes;
+		rec.s.reserve(1 << 16); outBytes.reserve(1 << 16);   // before live0: assigning the output below must not look like a leak
 		long live0 = g_live;
 		try {
 			std::ostringstream os;
@@ -77,9 +91,9 @@ int main() {
 				if (mode == 5) { Potassco::AspifOutput a(os); rc = Potassco::readSmodels(is, a, &onError, so); }
 				else           { Potassco::AspifTextOutput t(os); rc = Potassco::readSmodels(is, t, &onError, so); }
 			}
-			else if (mode == 7) { extra = runLpconvert(in, opts); }
 			status = (rc != 0 || g_errs != 0) ? 1 : 0;
-			outLen = (long)os.str().size();
+			outBytes.assign(os.str());
+			if (mode == 7) { status = runLpconvert(in, opts, outBytes, g_errs, g_line); }
 		}
 		catch (const std::exception&) { status = 2; }
 		catch (...) { status = 3; }
@@ -87,8 +101,7 @@ int main() {
 		if (g_live > live0) { leak = __lsan_do_recoverable_leak_check() ? 1 : 0; }
 		o.add(status); o.add(g_errs); o.add(g_line); o.add(leak ? 1 : 0);
 		if (mode <= 2) { if (!rec.s.empty()) { o.s += ' '; o.s += rec.s; } }
-		else if (mode <= 6) { o.add((ll)outLen); }
-		else { o.add(extra); }
+		else { o.add((ll)outBytes.size()); o.addBytes(outBytes.data(), outBytes.size()); }
 		o.flush();
 	}
 	return 0;
